@@ -101,6 +101,12 @@ def eval_mix(s, rnd):
         v = call(AL.log_likelihood, T[k: k + 1], G)
         o["single"].append(v if isinstance(v, str) else math.exp(v) * den)
     o["ll"] = fl(call(AL.log_likelihood, T, G, counts))
+    # the same instance with its SNV columns repeated TILE times (a long locus; products of many small factors)
+    TILE = 16
+    Tt = np.tile(T, (1, TILE, 1))
+    Gt = np.tile(G, (1, TILE))
+    o["tiled"] = [fl(call(AL.log_likelihood, Tt[k: k + 1], Gt)) for k in range(len(cells))]
+    o["tiled_struct"] = [fl(call(AL.log_likelihood_structural_change, Tt[k: k + 1], Gt, np.arange(P), (0, 0))) for k in range(len(cells))]
     o["ll_i32"] = fl(call(AL.log_likelihood, T, G, counts.astype(np.int32)))
     # k copies with no counts at all
     rep = [k for k in range(len(cells)) for _ in range(int(counts[k]))]
